@@ -6,6 +6,7 @@ import (
 	"sort"
 	"strings"
 	"sync"
+	"sync/atomic"
 
 	badgerdb "github.com/dgraph-io/badger/v4"
 	"github.com/ostafen/clover/v2/document"
@@ -70,7 +71,10 @@ type rebuilt struct {
 	err  string
 }
 
-var rebuildCache sync.Map // backend + model key -> *rebuilt
+var rebuildCache sync.Map   // backend + model key -> *rebuilt
+var rebuildCacheBytes int64 // approximate; the cache stops growing at rebuildCacheLimit
+
+const rebuildCacheLimit = 1 << 30
 
 // Rebuild builds a fresh database holding the model's logical state with the implementation itself
 // (create collections, create indexes on the empty collections, insert the documents) and returns its keys.
@@ -120,7 +124,12 @@ func Rebuild(scratch *Inst, model *m.DB) *rebuilt {
 			}
 		}
 	}()
-	rebuildCache.Store(ck, r)
+	// only small states are worth remembering (state-space searches revisit them constantly); the rebuild of a
+	// collection of thousands of documents is megabytes and is never asked for twice
+	if size := int64(len(ck)) * 3; len(ck) <= 16<<10 && atomic.LoadInt64(&rebuildCacheBytes)+size < rebuildCacheLimit {
+		atomic.AddInt64(&rebuildCacheBytes, size)
+		rebuildCache.Store(ck, r)
+	}
 	return r
 }
 
